@@ -290,6 +290,9 @@ func sacramento(rainfall, pet data.ND1Float64,
 			//       Drainage and percolation loop
 			for inc := 1; inc <= ninc; inc++ {
 				ratio := (additionalImperviousStore - uprTensionWater) / lztwm
+				if ratio < 0 {
+					ratio = 0
+				}
 				addro := pinc * ratio * ratio
 
 				//         Compute the baseflow from the lower zone
